@@ -59,7 +59,7 @@ class C13(TraceCheck):
         hists += parse_behaviours(r["out"])
         stats["states"] += r["distinct"]
         stats["transitions"] += r["generated"]
-        num = 1500 if tier == "quick" else 40000
+        num = 1500 if tier == "quick" else 15000
         cfg = ("SPECIFICATION GenSpec\nCONSTANT MaxSteps = 12\nCONSTANT MaxPool = 12\nCONSTANT Emit = TRUE\nINVARIANT EmitProgram\n"
                "CHECK_DEADLOCK FALSE\n")
         r = common.run_tlc("Pool", cfg, wd / "sim", workers=1, timeout=1500, simulate=f"num={num}", depth=13,
@@ -67,10 +67,11 @@ class C13(TraceCheck):
         hists += parse_behaviours(r["out"])
         stats["states"] += r["generated"]
         stats["transitions"] += r["generated"]
-        if tier == "quick" and len(hists) > 4000:
+        cap = 1500 if tier == "quick" else 40000      # the exhaustive depth-2 set has ~500k programs
+        bfs = [h for h in hists if len(h) <= 2]
+        if len(bfs) > cap:
             rng = common.rng("C13-sub")
-            bfs = [h for h in hists if len(h) <= 2]
-            hists = rng.sample(bfs, min(len(bfs), 1500)) + [h for h in hists if len(h) > 2]
+            hists = rng.sample(bfs, cap) + [h for h in hists if len(h) > 2]
         return hists, stats
 
     def histories(self, tier, rng):
